@@ -80,16 +80,38 @@ def work_structural(seed, n):
     return part
 
 
+TYPED_DUPLICATES = [("Integer", "7", "07"), ("Integer", "1", "1.0"), ("Integer", "5", " 5"), ("Number", "1.5", "1.50"), ("Number", "2", "2.0"), ("Boolean", "true", "TRUE"), ("Boolean", "true", "1"),
+                    ("Time_Period", "2020Q1", "2020-Q1"), ("Time_Period", "2020M1", "2020-01"), ("Time_Period", "2020", "2020A"), ("Time_Period", "2020D15", "2020-01-15"),
+                    ("Date", "2020-01-01", "2020-01-01 00:00:00"), ("String", "a", "a"), ("String", "a", "A"), ("Duration", "A", "A")]
+
+
+def work_typed_duplicates():
+    """Two rows whose identifier values are different spellings of the same typed value (duplicates only after typing), CSV and DataFrame."""
+    warnings.filterwarnings("ignore")
+    part = core.Part()
+    for typ, a, b in TYPED_DUPLICATES:
+        for form in ("csv", "df"):
+            comps = [eng.comp("Id_1", "Integer", "I"), eng.comp("Id_2", typ, "I"), eng.comp("Me_1", "Number")]
+            S = eng.structures(eng.structure("DS_1", comps))
+            header = ["Id_1", "Id_2", "Me_1"]
+            rows = [["1", a, "1.5"], ["1", b, "2.5"], ["2", a, "3.5"]]
+            case = dict(type=typ, spellings=[a, b], form=form, rows=rows)
+            with ic.Tmp() as tmp:
+                x, y = compare(part, case, "typed_duplicate:%s:%s=%s:%s" % (typ, a, b.strip() or b, form), S, lambda tag: ic.materialise(form, comps, header, rows, tmp, tag))
+            part.case("typed_duplicate:%s:%s:%s:%s" % (typ, a, b, form), True, labels=["typed_duplicate", "type=" + typ, "form=" + form, "agree" if x == y else "disagree"])
+    return part
+
+
 def _dispatch(fname, args):
     return globals()[fname](*args)
 
 
 def run(ctx):
     ctx.rule = ("cases: every labelled spelling of the catalogue (valid, invalid and undocumented) as one cell of a two-row table in CSV and string-DataFrame form, plus Hypothesis tables with 0-2 structural violations "
-                "(incl. an extra column); oracle = agreement of validate_dataset with run('R <- DS_1;'); non-trivial = spelling that is not documented-valid, or a table with a violation")
+                "(incl. an extra column) and 15 pairs of identifier spellings that are duplicates only after typing; oracle = agreement of validate_dataset with run('R <- DS_1;'); non-trivial = spelling that is not documented-valid, or a table with a violation")
     items = [(typ, label, text, ok, den, form) for typ, es in valuecat.CATALOGUE.items() for label, text, ok, den in es for form in ("csv", "df") if not (form == "csv" and '"' in text)]
     n = 25 if ctx.quick else 500
-    jobs = [("work_cells", (items[k::12],)) for k in range(12)] + [("work_structural", (ctx.seed * 1009 + k, n)) for k in range(4)]
+    jobs = [("work_cells", (items[k::12],)) for k in range(12)] + [("work_structural", (ctx.seed * 1009 + k, n)) for k in range(4)] + [("work_typed_duplicates", ())]
     ctx.merge(core.pmap("checks.c20", "_dispatch", jobs, procs=16))
     ctx.assumptions = ["run() rejecting = DataLoadError or InputValidationException; any other outcome of run() (including other VTL errors and raw exceptions) counts as run() not accepting"]
 
